@@ -130,7 +130,26 @@ func (c *Check) thoroughExtras() {
 		w.vta.nfuncs, w.vta.checked, len(miss), w.vta.dynSites, w.vta.added))
 	// (b) premises about ristretto/z that rules rely on (z has syntax only in this tier)
 	c.zPremises()
-	// (c) the checker's own mutants for this property must fire
+	// (c) the checker's own mutants for this property must fire — on a tree that satisfies the rules.
+	// If the tree under test already violates a rule of this property, a mutant applied on top of it
+	// is reported under whatever fires first; the self-test would then call the check broken and hide
+	// the violation. The verdict on the tree comes first.
+	known, _ := loadKnown(c.Root)
+	for _, o := range c.Obs {
+		if o.OK {
+			continue
+		}
+		isKnown := false
+		for _, k := range known {
+			if k.Prop == c.Prop && k.Rule == o.Rule && k.Site == o.Fn+"|"+o.Construct {
+				isKnown = true
+			}
+		}
+		if !isKnown {
+			c.Notes = append(c.Notes, "thorough: mutant self-test skipped, the tree under test violates "+o.Rule)
+			return
+		}
+	}
 	c.runMutants()
 }
 
